@@ -5,6 +5,7 @@ arbitrary normalised sides).
 -/
 import Rooc.Proofs.LinD1
 import Rooc.Proofs.LinNC2
+import Rooc.Proofs.LinNC3
 import Rooc.Proofs.LinMain
 
 set_option linter.unusedSectionVars false
@@ -95,10 +96,30 @@ theorem GoodE.ofAG {d : List (DomVar (Ext K))} {e : Exp (Ext K)} (h : AG (inScop
     (hf : FinE e) : GoodE d e :=
   ⟨h.2, hf, fun ρ _ => NC_of_arithOnly ρ e h.1, fun ρ _ => hd ρ⟩
 
-/-- a source constraint: both sides satisfy the contract over the initial domain. -/
+/-- the STATIC contract on a source expression: declared used variables only, finite literals, and no and/or
+node collapsing to a non-0/1 value at the assignments satisfying the domains (= the harness flag
+`nary-singleton-nonbinary` is not raised, `NCon.ofFlag`).  Definedness is NOT part of it: it is a consequence
+of a successful compilation (`Rooc/Proofs/LinDef*.lean`). -/
+structure GoodS (d : List (DomVar (Ext K))) (e : Exp (Ext K)) : Prop where
+  vars : ∀ x ∈ varsOf e, inScope d x
+  fin : FinE e
+  nc : NCon d e
+
+theorem GoodE.toS {d : List (DomVar (Ext K))} {e : Exp (Ext K)} (h : GoodE d e) : GoodS d e :=
+  ⟨h.vars, h.fin, h.nc⟩
+
+theorem GoodS.withDef {d : List (DomVar (Ext K))} {e : Exp (Ext K)} (h : GoodS d e) (hd : DefOn d e) : GoodE d e :=
+  ⟨h.vars, h.fin, h.nc, hd⟩
+
+/-- `normalize` keeps the value as an `Option` (same definedness, same value). -/
+theorem GoodS.normalize_eval {d : List (DomVar (Ext K))} {e e' : Exp (Ext K)} (h : GoodS d e)
+    (hn : normalizeExp e = some e') (ρ : String → K) (hd : DomSat ρ d) : eval ρ e' = eval ρ e :=
+  normalize_eval_eq_nc hn (h.nc ρ hd) h.fin
+
+/-- a source constraint: both sides satisfy the static contract over the initial domain. -/
 structure SrcD (d0 : List (DomVar (Ext K))) (c : Constraint (Ext K)) : Prop where
-  lhs : GoodE d0 c.lhs
-  rhs : GoodE d0 c.rhs
+  lhs : GoodS d0 c.lhs
+  rhs : GoodS d0 c.rhs
 
 /-! ### the loop invariant -/
 
